@@ -36,6 +36,7 @@ MK = {  # how the harness makes a value of a result type carrying mark m
     "*Node": "&Node{M: %s}", "Expr": "Expr(&Node{M: %s})", "any": "any(&Node{M: %s})", "MyAny": "MyAny(&Node{M: %s})",
     "Box[int]": "Box[int]{V: %s}", "map[string]int": "map[string]int{\"k\": %s}", "Dict": "Dict{\"k\": %s}",
     "Fn": "mkfn(%s)", "NodeList": "NodeList{&Node{M: %s}}",
+    "NodePtr": "NodePtr(&Node{M: %s})", "func() int": "(func() int)(mkfn(%s))", "[]*Node": "[]*Node{&Node{M: %s}}",
 }
 
 HARNESS = '''
@@ -232,6 +233,13 @@ def configs(quick, rng, tix=None, rel=None):
     ms = b(); ms.append(method(8, "on_s__orphan2", "s", ["*Other", "Token"], "int", 1)); add("layout:orphan-type", "*Node", "Expr", "Dict", ms)
     ms = b(); ms.append(method(8, "on_nosuch", "nosuch", ["Token"], "int", 1)); add("layout:unknown-rule", "*Node", "Expr", "Dict", ms)
     ms = b(); ms[0] = method(1, "on_s__x", "s", ["Expr", "Token"], "*Node", 1); add("layout:two-return-types", "*Node", "Expr", "Dict", ms)
+    # the methods of one rule must return ONE type (identity, not a shared underlying type or mutual assignability)
+    for t1, t2 in (("Dict", "map[string]int"), ("map[string]int", "Dict"), ("Fn", "func() int"), ("NodeList", "[]*Node"), ("MyAny", "any"),
+                   ("any", "Expr"), ("NodePtr", "*Node"), ("*Node", "NodePtr"), ("Dict", "Dict"), ("Expr", "*Node"), ("int", "Dict")):
+        ms = b()
+        for k in range(4):
+            ms[k] = method(ms[k]["id"], ms[k]["name"], "s", ms[k]["params"], t1 if k == 2 else t2, k + 1)
+        add("layout:rets:%s/%s" % (t1, t2), "*Node", "Expr", "Dict", ms)
     ms = b(); ms[4] = method(5, "on_x", "x", ["Token"], "*Node", 7, rets=["*Node", "error"]); add("layout:two-results", "*Node", "Expr", "Dict", ms)
     ms = b(); ms.append(method(8, "on_x__b", "x", ["Token"], "Expr", 7)); add("layout:rule-two-types-ambiguous", "*Node", "Expr", "Dict", ms)
     ms = b(); ms[0] = method(1, "on_s__x", "s", ["Expr"], "int", 1); add("layout:wrong-arity", "*Node", "Expr", "Dict", ms)
